@@ -40,7 +40,7 @@ CHECKS = {
         'the specifications; the spacing is split into adjacent number and unit pieces. Numbers are abstract (shape only). Tied by '
         'correspondence of every attribute of every level on generated lists, judged by an oracle on the returned element, grammar '
         'acceptance and serialisation.',
-   note='Axioms: none. float()/str(float) are not modelled (parametric); the CSS regex is modelled by span functions.',
+   note='Axioms: none. float()/str(float) are not modelled (parametric); the CSS regex is modelled by span functions. "The grammar accepts" is read as the library\'s grammar tables; the datatype of the emitted lengths is not claimed (DESIGN section 6).',
    tech='Coq proof by list induction + extracted-model correspondence',
    ref='5/C20'),
  'C01': dict(
@@ -70,7 +70,7 @@ CHECKS = {
         'No-duplicate member names needs distinct names in the input (an explicit picture name equal to a reserved member name is a '
         'recorded finding). Tied by correspondence of member order, STORED flags, bytes and manifest rows, and by an oracle reading the '
         'raw first local header, the central directory and the manifest independently.',
-   note='Axioms: none. XML part payloads are symbolic here (their content is C01/C02/C10); zipfile\'s byte layout is trusted.',
+   note='Axioms: none. XML part payloads are symbolic here (their content is C01/C02/C10); zipfile\'s byte layout is trusted. Recorded findings: a picture named like a reserved member; an object attached before its parent (the C16 finding seen from here).',
    tech='Coq proof over a model of the package writer (induction on the object tree) + correspondence',
    ref='5/C03'),
  'C04': dict(
@@ -104,7 +104,7 @@ CHECKS = {
         'Not proved: the package level (other members, media types: C03/C16 theorems and the oracle). Tied by correspondence of xml_parse + load_doc '
         'with load() on every sample document of the repository, ten structure-preserving mutations of each and synthetic packages, '
         'and judged by an independent source-vs-saved comparison (zipfile + expat).',
-   note='Axioms: none. White space is ignored by the oracle only where the schema gives element-only content.',
+   note='Axioms: none. White space is ignored by the oracle only where the schema gives element-only content. Recorded findings: fonts declared only in content.xml; meta.xml of an object; a name used by two list/data styles of the two parts; a common style renamed on a clash across families.',
    tech='Coq proof (loader model over arbitrary part trees, composition with C04) + correspondence on real and mutated packages',
    ref='5/C05'),
  'C06': dict(
@@ -175,7 +175,7 @@ CHECKS = {
         'specification it can name a style:style. Tied by per-element correspondence of the extracted load_all with load(), and judged by '
         'an independent marker-resolution oracle over source, loaded document, saved package and a second generation.',
    note='Axioms: none. The abstraction of a package to the element list is done by the harness; style:style names are assumed unique '
-        'within one part across families; other kinds of styles (list styles, page layouts) are not renamed by the code and not covered.',
+        'within one part across families; other kinds of styles (list styles, page layouts) are not renamed by the code and not covered. Recorded finding: a reference in the automatic styles of styles.xml that stands in front of the definition it names is not followed when that definition is renamed (the hypothesis of C11_styles_part failing on a real package).',
    tech='Coq invariant proof by induction over the load sequence + regenerated tables + correspondence',
    ref='5/C11'),
  'C12': dict(
@@ -245,7 +245,7 @@ CHECKS = {
         'exhaustive+random correspondence of the encoder output and of the decoder; the save/load clause is the C02 round trip '
         'plus a sampled real save()+load().',
    note='Axioms: none (all four theorems closed under the global context). Model: coq/model/Teletype.v (hand-written; the '
-        'inner blank-counting loop is a state transition).',
+        'inner blank-counting loop is a state transition). Recorded finding: the save/load clause meets the C02 finding (discouraged code points come back as U+FFFD).',
    tech='Coq proof by induction (closed under the global context) + extracted-model correspondence',
    ref='5/C17'),
 }
